@@ -1,6 +1,7 @@
 package main
 
 import (
+	"strings"
 	"fmt"
 	"math"
 
@@ -17,6 +18,7 @@ func init() { register("sizing", suiteSizing) }
 
 func suiteSizing(c *Ctx) {
 	c.rep.Rule = "case = one (n,p) / (epsilon,delta) / (size,bucketSize,errorRate) configuration: constructor dimensions compared with the transcribed formulas, then the structure is loaded to its design load and probed with never-inserted keys (random and skewed key sets); non-trivial = configuration with n >= 1000 and at least 20000 probes; distinct by configuration"
+	bloomHuge(c, []string{"C15"})
 	// (a) dimension grid
 	for _, n := range []uint{1, 10, 1000, 5000, 123457} {
 		for _, p := range []float64{0.5, 0.3, 0.1, 0.01, 0.001, 0.0001} {
@@ -113,6 +115,9 @@ func suiteSizing(c *Ctx) {
 	for _, cfg := range [][3]float64{{1000, 4, 0.01}, {1000, 4, 0.0001}, {2000, 2, 0.1}} {
 		sizingCuckoo(c, uint64(cfg[0]), uint64(cfg[1]), cfg[2], probes)
 	}
+	for _, redis := range []bool{false, true} {
+		sizingCuckooLongKeys(c, redis)
+	}
 }
 
 func overBudget(hits, probes int, p float64) bool {
@@ -199,6 +204,57 @@ func sizingCMS(c *Ctx, eps, delta float64, skewed bool) {
 			map[string]interface{}{"eps": eps, "delta": delta, "skewed": skewed, "seed": c.seed})
 	}
 	c.nontrivial(fmt.Sprintf("cms %g %g %v", eps, delta, skewed))
+}
+
+// sizingCuckooLongKeys: an adversarially skewed key set - long keys (URLs, paths, composite ids)
+// that share their first few hundred bytes and differ only at the end.  At 5 % load hardly any
+// never-inserted key may be reported present; a hash that looks at a prefix only reports them all.
+// (Kept apart from the design-load measurement above, which reproduces finding D22 on the
+// unchanged code: the threshold here is far above what D22 causes at this load.)
+func sizingCuckooLongKeys(c *Ctx, redis bool) {
+	var h cuckooHandle
+	if redis {
+		f, err := gostatix.NewCuckooFilterRedisWithErrorRate(256, 4, 50, 0.01)
+		if err != nil || f == nil {
+			return
+		}
+		h = cuckooRedis{f}
+	} else {
+		h = cuckooMem{gostatix.NewCuckooFilterWithErrorRate(256, 4, 50, 0.01)}
+	}
+	c.rep.Cases++
+	for _, plen := range []int{70, 300, 1100, 5000} {
+		prefix := strings.Repeat("/a/shared/prefix/of/a/long/key", plen/30+1)[:plen]
+		members, probes := 40, 400
+		if redis {
+			probes = 120
+		}
+		for i := 0; i < members; i++ {
+			safely(func() { h.Insert([]byte(fmt.Sprintf("%s/member-%d-%d", prefix, c.seed, i)), false) })
+		}
+		hits := 0
+		for i := 0; i < probes; i++ {
+			if ok, _ := h.Lookup([]byte(fmt.Sprintf("%s/absent-%d-%d", prefix, c.seed, i))); ok {
+				hits++
+			}
+		}
+		c.op("stat.cuckoo.long-keys")
+		if hits*4 > probes {
+			c.fail([]string{"C15", "C02"}, "cuckoo-long-keys-collide", fmt.Sprintf("CuckooFilterWithErrorRate(256,4,0.01,redis=%v): %d keys sharing a %d-byte prefix inserted (a few %% of the capacity); %d of %d never-inserted keys with the same prefix are reported present", redis, members*(1+indexOf(plen)), plen, hits, probes),
+				map[string]interface{}{"prefix_bytes": plen, "redis": redis, "seed": c.seed})
+			return
+		}
+	}
+	c.branch("long-keys")
+}
+
+func indexOf(plen int) int {
+	for i, v := range []int{70, 300, 1100, 5000} {
+		if v == plen {
+			return i
+		}
+	}
+	return 0
 }
 
 func sizingCuckoo(c *Ctx, size, b uint64, errRate float64, probes int) {
